@@ -37,6 +37,8 @@ SIDES = ("left", "up", "right", "down")
 def expected_margins(steps, shape):
     """steps: [[name, cfg], ...] -> dict in the shape of GlobalMargins.to_dict()"""
     cum, non = {}, {}
+    # the matching-cost `step` (column stride, only accepted when pandora2d drives Pandora) scales the filter margins
+    mstep = next((c.get("step", 1) for n, c in steps if dfa.kind_of(n) == "matching_cost"), 1)
     for name, cfg in steps:
         k = dfa.kind_of(name)
         if k == "matching_cost":
@@ -49,9 +51,9 @@ def expected_margins(steps, shape):
         elif k == "filter":
             m = cfg["filter_method"]
             if m in ("median", "median_for_intervals"):
-                non[name] = cfg.get("filter_size", 3)
+                non[name] = cfg.get("filter_size", 3) * mstep
             else:
-                non[name] = min(shape[0], shape[1], int(3 * cfg.get("sigma_space", 6.0) + 1))
+                non[name] = min(shape[0], shape[1], int(3 * cfg.get("sigma_space", 6.0) + 1)) * mstep
     tot = sum(cum.values())
     glob = max([tot] + list(non.values()))
     d = lambda v: {s: v for s in SIDES}  # noqa: E731
@@ -67,7 +69,18 @@ def check_margins(steps, shape):
     img = np.zeros(shape, dtype=np.float32)
     l, r = drive.make_inputs(img, img, (-2, 2))
     machine = PandoraMachine()
-    drive.check_pipeline(machine, {n: copy.deepcopy(c) for n, c in steps}, l, r)
+    # a matching-cost step other than 1 is only accepted when the pandora2d package is loaded: stand in for it
+    import sys
+    import types
+
+    fake = any(c.get("step", 1) != 1 for _, c in steps) and "pandora2d" not in sys.modules
+    if fake:
+        sys.modules["pandora2d"] = types.ModuleType("pandora2d")
+    try:
+        drive.check_pipeline(machine, {n: copy.deepcopy(c) for n, c in steps}, l, r)
+    finally:
+        if fake:
+            del sys.modules["pandora2d"]
     return machine.margins.to_dict(), machine
 
 
@@ -139,6 +152,8 @@ def gen_cases(draw):
     w = draw(st.sampled_from([3, 5])) if meas == "census" else draw(st.sampled_from([1, 3, 5, 7, 9, 11]))
     w = min(w, min(shape) if min(shape) % 2 else min(shape) - 1)
     steps = [["matching_cost" + draw(st.sampled_from(["", "", ".m"])), {"matching_cost_method": meas, "window_size": w}]]
+    if draw(st.integers(0, 3)) == 0:
+        steps[0][1]["step"] = draw(st.sampled_from([2, 3]))
     if draw(st.booleans()):
         steps[0][1].pop("window_size")
         if meas == "census" or min(shape) >= 5:
@@ -182,6 +197,8 @@ def gen_cases(draw):
     extra = post_step() if draw(st.booleans()) else [nm(draw(st.sampled_from(["aggregation", "optimization"]))), None]
     if extra[1] is None:
         extra[1] = copy.deepcopy(dict(pool_cv)[dfa.kind_of(extra[0])])
+    if any(dfa.kind_of(n) == "optimization" for n, _ in steps + [extra]):
+        steps[0][1].pop("step", None)  # the optimisation step only works with step 1 (documented refusal)
     return {"shape": shape, "steps": steps, "extra": extra, "pos": draw(st.integers(0, 20))}
 
 
@@ -208,7 +225,7 @@ def gen_body(ctx: Ctx, p: dict) -> None:
         if g3["global margins"][s] < got["global margins"][s]:
             ctx.violation("C20/margins-decrease-when-step-added", f"{got['global margins']} -> {g3['global margins']} adding {p['extra']}")
     ctx.case(p, nontrivial=mixed, classes=(["non-cumulative-dominates"] if dom else []) +
-             (["validation"] if len(noval) != len(steps) else []))
+             (["validation"] if len(noval) != len(steps) else []) + (["matching-cost-step>1"] if steps[0][1].get("step", 1) > 1 else []))
 
 
 @st.composite
